@@ -77,4 +77,14 @@ def sign (sha256 : Bytes → Bytes) (d' : Nat) (m a : Bytes) : Option Bytes :=
       let sig := bytes32 rx ++ bytes32 ((k + e * d) % N)
       if verify sha256 (bytes32 px) m sig then some sig else none
 
+/-- the value `k'` of the signing algorithm (`none` where the algorithm has failed before computing it) -/
+def nonce (sha256 : Bytes → Bytes) (d' : Nat) (m a : Bytes) : Option Nat :=
+  if d' = 0 ∨ d' ≥ N then none else
+  match smul (d' : Int) G with
+  | .inf => none
+  | .aff px py =>
+    let d := if py % 2 = 0 then d' else N - d'
+    let t := xor (bytes32 d) (hashTag sha256 tagAux a)
+    some (int (hashTag sha256 tagNonce (t ++ bytes32 px ++ m)) % N)
+
 end Buidl.Spec.BIP340
